@@ -528,7 +528,7 @@ pub fn def() -> PropDef {
     PropDef {
         id: "C14",
         level: "exploration",
-        rule: "case = tree of 6-11 entries (storage with 3 children and a nested storage) x 1-4 reader scripts of 3-15 read-only calls (entry, exists, is_stream, is_storage, root_entry, read_storage / read_root_storage / walk / walk_storage iterated partially, two iterators advanced alternately, version(), Debug formatting of the compound file) x one stream-I/O script of 2-20 calls on up to 2 handles (read, write, seek, set_len, flush; buffer 1024 or default) x a generated schedule. Threads are real but run one at a time under a deterministic scheduler driven by the lock-observer hook; the lock is modelled with writer preference (std's policy on Linux) and a thread enters the real lock only when the model grants it. Oracles: no deadlock (no runnable thread while some are blocked), no acquisition while the thread already holds a guard (then the scheduler constructs the deadlocking schedule: I/O thread is run to its next write request), no panic in any thread, every reader result equals the model with each stream length being a length that stream had at an I/O call boundary, I/O results equal the byte-vector model. Non-trivial = the I/O thread requested the write lock while a reader held a read guard and some iterator was advanced >=4 steps (crosses a storage boundary); distinct = distinct case JSON.",
+        rule: "case = tree of 6-11 entries (storage with 3 children and a nested storage) x 1-4 reader scripts of 3-15 read-only calls (entry, exists, is_stream, is_storage, root_entry, read_storage / read_root_storage / walk / walk_storage iterated partially, two iterators advanced alternately, version(), Debug formatting of the compound file) x one stream-I/O script of 2-20 calls on up to 2 handles (read, write of 1-5000 bytes and now and then 70-300 KB so that one write-back moves far more than 64 KiB, seek, set_len up to several MiB, flush; buffer 1024 or default) x a generated schedule. Threads are real but run one at a time under a deterministic scheduler driven by the lock-observer hook; the lock is modelled with writer preference (std's policy on Linux) and a thread enters the real lock only when the model grants it. Oracles: no deadlock (no runnable thread while some are blocked), no acquisition while the thread already holds a guard (then the scheduler constructs the deadlocking schedule: I/O thread is run to its next write request), no panic in any thread, every reader result equals the model with each stream length being a length that stream had at an I/O call boundary, I/O results equal the byte-vector model. Non-trivial = the I/O thread requested the write lock while a reader held a read guard and some iterator was advanced >=4 steps (crosses a storage boundary); distinct = distinct case JSON.",
         assumptions: &["lock policy modelled: writer-preferring (library/std/src/sys/sync/rwlock/futex.rs); other policies are not explored", "schedules are sampled, not enumerated; the lock-discipline invariant makes re-entrancy detection schedule-independent"],
         quick_cases: 1500,
         thorough_cases: 20000,
